@@ -27,6 +27,7 @@ type FeatureLocal struct {
 	muxWriteReceived       sync.Mutex
 	writeApprovalReceived  map[string]map[model.MsgCounterType]int
 	pendingWriteApprovals  map[string]map[model.MsgCounterType]*time.Timer
+	pendingWriteMessages   map[string]map[model.MsgCounterType]*api.Message
 
 	bindings      []*model.FeatureAddressType // bindings to remote features
 	subscriptions []*model.FeatureAddressType // subscriptions to remote features
@@ -45,6 +46,7 @@ func NewFeatureLocal(id uint, entity api.EntityLocalInterface, ftype model.Featu
 		responseMsgCallback:   make(map[model.MsgCounterType][]func(result api.ResponseMessage)),
 		writeApprovalReceived: make(map[string]map[model.MsgCounterType]int),
 		pendingWriteApprovals: make(map[string]map[model.MsgCounterType]*time.Timer),
+		pendingWriteMessages:  make(map[string]map[model.MsgCounterType]*api.Message),
 		writeTimeout:          defaultMaxResponseDelay,
 	}
 
@@ -204,6 +206,7 @@ func (r *FeatureLocal) addPendingApproval(msg *api.Message) {
 	newTimer := time.AfterFunc(writeTimeout, func() {
 		r.muxResponseCB.Lock()
 		delete(r.pendingWriteApprovals[ski], *msg.RequestHeader.MsgCounter)
+		delete(r.pendingWriteMessages[ski], *msg.RequestHeader.MsgCounter)
 		r.muxResponseCB.Unlock()
 
 		err := model.NewErrorTypeFromString("write not approved in time by application")
@@ -215,7 +218,28 @@ func (r *FeatureLocal) addPendingApproval(msg *api.Message) {
 		r.pendingWriteApprovals[ski] = make(map[model.MsgCounterType]*time.Timer)
 	}
 	r.pendingWriteApprovals[ski][*msg.RequestHeader.MsgCounter] = newTimer
+	if _, ok := r.pendingWriteMessages[ski]; !ok {
+		r.pendingWriteMessages[ski] = make(map[model.MsgCounterType]*api.Message)
+	}
+	r.pendingWriteMessages[ski][*msg.RequestHeader.MsgCounter] = msg
 	r.muxResponseCB.Unlock()
+}
+
+// Remove the pending write approvals of writes sent by features of a removed remote entity
+func (r *FeatureLocal) cleanWriteApprovalCachesForEntity(ski string, entity api.EntityRemoteInterface) {
+	r.muxResponseCB.Lock()
+	defer r.muxResponseCB.Unlock()
+
+	for counter, msg := range r.pendingWriteMessages[ski] {
+		if msg.EntityRemote != entity {
+			continue
+		}
+		if timer, ok := r.pendingWriteApprovals[ski][counter]; ok && timer != nil {
+			timer.Stop()
+		}
+		delete(r.pendingWriteApprovals[ski], counter)
+		delete(r.pendingWriteMessages[ski], counter)
+	}
 }
 
 func (r *FeatureLocal) ApproveOrDenyWrite(msg *api.Message, err model.ErrorType) {
@@ -268,6 +292,7 @@ func (r *FeatureLocal) ApproveOrDenyWrite(msg *api.Message, err model.ErrorType)
 	r.muxResponseCB.Lock()
 	defer r.muxResponseCB.Unlock()
 	delete(r.pendingWriteApprovals[ski], *msg.RequestHeader.MsgCounter)
+	delete(r.pendingWriteMessages[ski], *msg.RequestHeader.MsgCounter)
 
 	if err.ErrorNumber == 0 {
 		r.processWrite(msg)
@@ -297,6 +322,7 @@ func (r *FeatureLocal) CleanWriteApprovalCaches(ski string) {
 		timer.Stop()
 	}
 	delete(r.pendingWriteApprovals, ski)
+	delete(r.pendingWriteMessages, ski)
 	delete(r.writeApprovalReceived, ski)
 }
 
